@@ -38,6 +38,9 @@ def check(ctx, R):
         buffered_reader(ctx, R, roles, T)
         record_reader(ctx, R, roles, T)
         record_generator(ctx, R, roles, T)
+        from .c03 import _read_exact as read_exact_rules, _packet_reader as packet_reader_rules
+        read_exact_rules(ctx, R, roles, T)        # "all read fragmentations"
+        packet_reader_rules(ctx, R, roles, T)
     R.assume("the record reader returns (id, header fields between id and length, payload) - checked in C08")
 
 
